@@ -13,7 +13,17 @@ A *history* is a list of ops executed on ONE sandbox (fresh report at the start)
    (run(inputs=) / call(inputs=)); "argsrc": [python source of each positional argument of call()],
    "kwargsrc": {name: source}; "group": "start" | "stop" | "both" (Sandbox.start/stop_grouping_context around
    this op, as commands.CommandBlock does); "fmt": "html" | "text" on the FIRST op = formatter of the report;
-   "size": {"dim", "n"} what was made large (see sandboxexec_sizes.py)}
+   "size": {"dim", "n"} what was made large (see sandboxexec_sizes.py);
+   "threaded": "sandbox" (sandbox.threaded = True: the execution AND every import of a student file run in a
+   worker thread) | "param" (run/call/evaluate(threaded=True): only the execution) | "import" (sandbox.threaded =
+   True but threaded=False passed: only the imports) - an execution that ENDS BY ITSELF in a thread is C04/C05's
+   (the time limit is C14's: allowed_time is set far beyond what the programs need);
+   "fn": name of the called function (default "f");
+   "inner": [op...] executions started on the SAME sandbox while this one is in progress (the student code calls
+   an instructor hook - "via": "mock" a mocked builtin, "data" a function in the student namespace, "input" the
+   callable given to set_input - which runs the inner ops in order; "hid" is the number the code passes to the
+   hook); an inner op may carry "swallow": the hook catches what escapes from it, and "style": None = it runs
+   under the tracer object of the execution in progress (see sandboxexec_dims.py)}
 and desc = {"cls","isException","isSystemExit","isKeyError","hazards":[...],"synLine":int|None,
             "frames":[[kind,line]...]}   (kind S student / I instructor / P pedal / L library)
 The descriptor is written down BY CONSTRUCTION of the program (and, for compile failures, from CPython's own
@@ -166,7 +176,7 @@ def failing_snippets(rng):
                     hazards=["attrR"], shape="exception-attribute-read-raises"))
     out.append(snip(["class HGetattr(Exception):", "    def __getattr__(self, k):",
                      "        raise ValueError('hidden')", "raise HGetattr()"], 3, "HGetattr", dict(exc=True),
-                    hazards=["attrR"], shape="exception-attribute-read-raises"))
+                    hazards=["attrM"], shape="exception-attribute-read-raises"))
     out.append(snip(["class HSysExit(SystemExit):", "    def __str__(self):", "        raise ValueError('no')",
                      "raise HSysExit()"], 3, "HSysExit", dict(exc=False, sysexit=True), hazards=["str"],
                     shape="str-raises-systemexit"))
@@ -737,10 +747,144 @@ def force_clean(sb, snap0):
             builtins.__dict__[k] = v
 
 
+HOOK_BUILTIN = "verif_hook"            # via "mock": a builtin the instructor mocked in
+HOOK_DATA = "verif_data_hook"          # via "data": an instructor function placed in the student namespace
+HOOK_PROMPT = "verif:"                 # via "input": the callable given to set_input, keyed by the prompt
+ALLOWED_TIME = 300                     # threaded executions here end by themselves; the time limit is C14's
+
+
+def has_inner(op):
+    return bool(op.get("inner"))
+
+
+def walk_ops(ops):
+    """Every op of a history, nested ones included, pre-order."""
+    for op in ops:
+        yield op
+        if has_inner(op):
+            yield from walk_ops(op["inner"])
+
+
+def _invoke(sb, op, main, kw):
+    """The API call of one op.  -> (returned value, what escaped)."""
+    call_args = [eval(src, {}) for src in op["argsrc"]] if "argsrc" in op else op.get("args", [])
+    call_kwargs = {k: eval(src, {}) for k, src in op.get("kwargsrc", {}).items()}
+    mode = op.get("threaded")
+    if mode == "param":
+        kw["threaded"] = True
+    elif mode == "import":
+        kw["threaded"] = False
+    try:
+        if op["entry"] == "run":
+            spell = op.get("spell", "bare")
+            if spell == "explicit":
+                return commands.run(op["code"], filename=main, **kw), None
+            if spell == "byname":
+                return commands.run(filename=main, **kw), None
+            return commands.run(**kw), None
+        if op["entry"] == "call":
+            if call_kwargs:
+                kw["function_kwargs"] = call_kwargs
+            return commands.call(op.get("fn", "f"), *call_args, **kw), None
+        if op["entry"] == "callmissing":
+            return commands.call("verif_no_such_function"), None
+        return commands.evaluate(op["expr"], **{k: v for k, v in kw.items() if k == "threaded"}), None
+    except BaseException as e:       # noqa - the whole point is to see what escapes
+        return None, e
+
+
+def _observe(sb, op, o, ret, escaped, n_before, ctx):
+    """Fill the observation `o` (already holding the snapshot comparison and the stack depths)."""
+    exc = unwrap(sb.exception)
+    o["exc"] = None if exc is None else safe_type_name(exc)
+    if escaped is None:
+        o["outcome"] = "ret"
+        if ret is sb:
+            o["rk"] = "sandbox"
+        elif isinstance(unwrap(ret), BaseException):
+            o["rk"] = "excval"
+        else:
+            o["rk"] = "value"
+    else:
+        student_cls = op["term"][1]["cls"] if op["term"][0] != "N" else None
+        o["outcome"] = "esc:student" if safe_type_name(escaped) == student_cls else "esc:internal"
+        o["escaped"] = safe_type_name(escaped)
+        o["rk"] = "-"
+    new = MAIN_REPORT.feedback[n_before:]
+    fbs, fbs_all, other = [], [], 0
+    for f in new:
+        if str(f.category).lower() == "runtime":
+            loc = f.location.line if f.location is not None else None
+            item = [f.label, f.fields.get("exception_name"), loc]
+            fbs_all.append(item)
+            if id(f) not in ctx["claimed"]:      # not attached by an execution nested in this one
+                fbs.append(item)
+        elif id(f) not in ctx["claimed"]:
+            other += 1
+    ctx["claimed"].update(id(f) for f in new)
+    o["fb"] = fbs
+    if has_inner(op):
+        o["fb_all"] = fbs_all
+        o["inner"] = ctx["inner_obs"].pop(op.get("hid"), [])
+    o["other_fb"] = other
+
+
+def _perform_inner(sb, op, ctx):
+    """One execution started while another one is in progress on the same sandbox (called from the hook, i.e.
+    from inside the running student code).  Nothing is cleaned up here: the execution in progress needs it."""
+    saved_tracer = None
+    if op.get("style") is not None:
+        saved_tracer = (sb._tracer_style, sb.trace)
+        sb.tracer_style = op["style"]
+    n_before = len(MAIN_REPORT.feedback)
+    dp0, do0 = len(sb._current_patches), len(sb._current_stdout)
+    before = Snapshot()
+    patcher = None
+    if op.get("inject"):
+        patcher = unittest.mock.patch.object(sandbox_module, "ExpandedTraceback", _boom)
+        patcher.start()
+    try:
+        ret, escaped = _invoke(sb, dict(op, spell="explicit") if op["entry"] == "run" else op, ctx["main"], {})
+    finally:
+        if patcher is not None:
+            patcher.stop()
+    after = Snapshot()
+    if saved_tracer is not None:
+        sb._tracer_style, sb.trace = saved_tracer
+    o = before.compare(after)
+    o["dp"] = len(sb._current_patches) - dp0
+    o["do"] = len(sb._current_stdout) - do0
+    _observe(sb, op, o, ret, escaped, n_before, ctx)
+    return o, escaped
+
+
+def _make_hook(sb, ctx):
+    def hook(hid, *args, **kwargs):
+        op = ctx["registry"].get(hid)
+        if op is None:
+            return "0"
+        results = ctx["inner_obs"].setdefault(hid, [])
+        for inner in op["inner"]:
+            o, escaped = _perform_inner(sb, inner, ctx)
+            results.append(o)
+            if escaped is not None and not inner.get("swallow"):
+                raise escaped
+        return "typed"
+
+    def input_hook(prompt="", *args, **kwargs):
+        if isinstance(prompt, str) and prompt.startswith(HOOK_PROMPT):
+            return hook(int(prompt[len(HOOK_PROMPT):]))
+        return "0"
+    return hook, input_hook
+
+
 def run_history(ops):
-    """-> list of observations (dict) - one per op."""
+    """-> list of observations (dict) - one per op (the observations of executions nested in an op: o["inner"])."""
+    import threading
     real_stdout, real_sleep = sys.stdout, time.sleep
     old_trace = sys.gettrace()
+    old_excepthook = threading.excepthook
+    threading.excepthook = lambda args: None      # a worker thread ended by KeyboardInterrupt & co. is not news
     clear_report()
     contextualize_report("", filename=MAIN_FILE)
     sb = commands.get_sandbox()
@@ -750,9 +894,11 @@ def run_history(ops):
     if fmt:
         from pedal.core import formatting
         MAIN_REPORT.set_formatter({"html": formatting.HtmlFormatter, "text": formatting.TextFormatter}[fmt](MAIN_REPORT))
+    ctx = {"registry": {}, "inner_obs": {}, "claimed": set(), "main": MAIN_FILE}
     try:
         for op in ops:
             main = op.get("main", MAIN_FILE)
+            ctx["main"] = main
             if op["entry"] == "run":
                 if op.get("helper") is not None or main != MAIN_FILE:
                     files = {main: op["code"]}
@@ -763,6 +909,8 @@ def run_history(ops):
                     contextualize_report(op["code"], filename=MAIN_FILE, clear=False)
             sb = commands.get_sandbox()
             sb.tracer_style = op["style"]
+            sb.threaded = op.get("threaded") in ("sandbox", "import")
+            sb.allowed_time = ALLOWED_TIME
             n_before = len(MAIN_REPORT.feedback)
             kw = {}
             if op.get("inputs") is not None:
@@ -770,14 +918,20 @@ def run_history(ops):
                     kw["inputs"] = list(op["inputs"])
                 else:
                     commands.set_input(list(op["inputs"]))
-            call_args = [eval(src, {}) for src in op["argsrc"]] if "argsrc" in op else op.get("args", [])
-            call_kwargs = {k: eval(src, {}) for k, src in op.get("kwargsrc", {}).items()}
+            hooked = has_inner(op)
+            if hooked:
+                ctx["registry"] = {o2["hid"]: o2 for o2 in walk_ops([op]) if has_inner(o2)}
+                ctx["inner_obs"] = {}
+                hook, input_hook = _make_hook(sb, ctx)
+                sb.mock_function(HOOK_BUILTIN, hook)
+                sb.data[HOOK_DATA] = hook
+                if any(o2.get("via") == "input" for o2 in walk_ops([op])):
+                    commands.clear_input()
+                    sb.set_input(input_hook)
             if op.get("group") in ("start", "both"):
                 sb.start_grouping_context()
             sys.settrace(_dummy_trace if op.get("pretrace", True) else None)
             before = Snapshot()
-            escaped = None
-            ret = None
             patcher = None
             if op.get("inject"):
                 patcher = unittest.mock.patch.object(sandbox_module, "ExpandedTraceback", _boom)
@@ -788,30 +942,17 @@ def run_history(ops):
                                                      op["inject_store"], _boom_store)
                 patcher.start()
             try:
-                try:
-                    if op["entry"] == "run":
-                        spell = op.get("spell", "bare")
-                        if spell == "explicit":
-                            ret = commands.run(op["code"], filename=main, **kw)
-                        elif spell == "byname":
-                            ret = commands.run(filename=main, **kw)
-                        else:
-                            ret = commands.run(**kw)
-                    elif op["entry"] == "call":
-                        if call_kwargs:
-                            kw["function_kwargs"] = call_kwargs
-                        ret = commands.call("f", *call_args, **kw)
-                    elif op["entry"] == "callmissing":
-                        ret = commands.call("verif_no_such_function")
-                    else:
-                        ret = commands.evaluate(op["expr"])
-                except BaseException as e:       # noqa - the whole point is to see what escapes
-                    escaped = e
+                ret, escaped = _invoke(sb, op, main, kw)
             finally:
                 if patcher is not None:
                     patcher.stop()
             after = Snapshot()
             sys.settrace(None)
+            sb.threaded = False
+            if hooked:
+                sb.clear_mocked_function(HOOK_BUILTIN)
+                sb.data.pop(HOOK_DATA, None)
+                commands.clear_input()
             if op.get("group") in ("stop", "both") and sb._context_group_start:
                 sb.stop_grouping_context()
             if op.get("inputs") is not None:
@@ -822,37 +963,15 @@ def run_history(ops):
             dirty = not all(o[k] for k in ("stdout", "sleep", "mods", "bi")) or o["dp"] or o["do"]
             if dirty:
                 force_clean(sb, before)
-            exc = unwrap(sb.exception)
-            o["exc"] = None if exc is None else safe_type_name(exc)
-            if escaped is None:
-                o["outcome"] = "ret"
-                if ret is sb:
-                    o["rk"] = "sandbox"
-                elif isinstance(unwrap(ret), BaseException):
-                    o["rk"] = "excval"
-                else:
-                    o["rk"] = "value"
-            else:
-                student_cls = op["term"][1]["cls"] if op["term"][0] != "N" else None
-                o["outcome"] = "esc:student" if safe_type_name(escaped) == student_cls else "esc:internal"
-                o["escaped"] = safe_type_name(escaped)
-                o["rk"] = "-"
-            new = MAIN_REPORT.feedback[n_before:]
-            fbs, other = [], 0
-            for f in new:
-                if str(f.category).lower() == "runtime":
-                    loc = f.location.line if f.location is not None else None
-                    fbs.append([f.label, f.fields.get("exception_name"), loc])
-                else:
-                    other += 1
-            o["fb"] = fbs
-            o["other_fb"] = other
+            _observe(sb, op, o, ret, escaped, n_before, ctx)
             obs.append(o)
     finally:
         sys.settrace(old_trace)
         sys.stdout, time.sleep = real_stdout, real_sleep
         del sb._context_group_start[:]
         MAIN_REPORT.format = old_format
+        threading.excepthook = old_excepthook
+        sb.threaded = False
     return obs
 
 
@@ -877,7 +996,7 @@ def warm_up():
 # wire
 
 HAZ_WIRE = {"str": "str", "repr": "repr", "attrR": "attrR", "attrW": "attrW", "synNoLine": "synNoLine",
-            "synNoSource": "synNoSource"}
+            "synNoSource": "synNoSource", "truth": "truth", "attrM": "attrM"}
 
 
 def enc_desc(d):
@@ -890,8 +1009,19 @@ def enc_desc(d):
     return toks
 
 
-def enc_op(op):
-    toks = [op["entry"], enc_str(op["style"]), enc_bool(op.get("nested", False)), enc_bool(op.get("inject", False))]
+def effective_style(op, parent_style=None):
+    return op["style"] if op.get("style") is not None else parent_style
+
+
+def reenters_tracer(op):
+    """The executed code makes pedal enter the tracer object of this execution a second time: it imports another
+    student file, or an execution nested in it runs under the same tracer object."""
+    return bool(op.get("nested")) or any(i.get("style") is None for i in op.get("inner") or ())
+
+
+def enc_op(op, parent_style=None):
+    toks = [op["entry"], enc_str(effective_style(op, parent_style)), enc_bool(reenters_tracer(op)),
+            enc_bool(op.get("inject", False))]
     t = op["term"]
     if op["entry"] == "callmissing" or t[0] == "N":
         toks.append("N")
@@ -901,11 +1031,44 @@ def enc_op(op):
     return toks
 
 
+def enc_nop(op, parent_style=None):
+    """An op followed by the executions nested in it: `<op> <k> <nop>*k`."""
+    inner = op.get("inner") or []
+    toks = enc_op(op, parent_style) + [str(len(inner))]
+    for i in inner:
+        toks += enc_nop(i, effective_style(op, parent_style))
+    return toks
+
+
 def request_line(ops):
+    if any(has_inner(op) for op in ops):
+        toks = ["nhist", str(len(ops))]
+        for op in ops:
+            toks += enc_nop(op)
+        return " ".join(toks)
     toks = ["hist", str(len(ops))]
     for op in ops:
         toks += enc_op(op)
     return " ".join(toks)
+
+
+def flatten(ops, obs, level=0):
+    """[(op, observation, level)] pre-order: an op, then the executions nested in it."""
+    out = []
+    for op, o in zip(ops, obs):
+        out.append((op, o, level))
+        if has_inner(op):
+            out += flatten(op["inner"], o.get("inner", []), level + 1)
+    return out
+
+
+def nesting_depth(ops):
+    """1 for a history without nested executions, 2 when an execution starts another one, ..."""
+    return 1 + max([nesting_depth(op["inner"]) for op in ops if has_inner(op)] or [0])
+
+
+def count_ops(ops):
+    return sum(1 for _ in walk_ops(ops))
 
 
 def parse_answer(ans):
@@ -944,19 +1107,35 @@ def student_sets_trace_untraced(op):
     return op is not None and op.get("style") == "none" and "settrace" in (op.get("code") or "")
 
 
+def containable(op):
+    t = op["term"]
+    return t[0] != "N" and bool(t[1]["isException"] or t[1]["isSystemExit"])
+
+
+def top_level_in_thread(op):
+    return op is not None and op.get("threaded") in ("sandbox", "param")
+
+
 def compare_op(prop, real, model, op=None):
     """Fields of `prop` on which one op's real and model observations differ."""
     diffs = []
     fields = C04_FIELDS if prop == "C04" else C05_FIELDS
     if prop == "C05" and student_sets_trace_untraced(op):
         fields = tuple(f for f in fields if f != "trace")
+    if prop == "C05" and top_level_in_thread(op):
+        # the tracer works on the worker thread's trace function; the calling thread's is not borrowed at all
+        # (that it is untouched is the oracle's business) - the model describes the unthreaded execution
+        fields = tuple(f for f in fields if f != "trace")
+    if prop == "C04" and op is not None and op.get("threaded") and op["term"][0] != "N" and not containable(op):
+        # outside C04's statement, and what a BaseException does to a worker thread is CPython's business
+        return diffs
     if prop == "C04" and model["outcome"].startswith("esc"):
         # the call did not return: how far `_capture_exception` got before raising (was `sandbox.exception`
         # already assigned?) is not part of the property and not modelled
         fields = ("outcome", "rk", "fb")
     for k in fields:
         if k == "fb":
-            r, m = real["fb"], model["fb"]
+            r, m = real.get("fb_all", real["fb"]), model["fb"]
             if len(r) != len(m):
                 diffs.append("nfb")
                 continue
@@ -1006,23 +1185,65 @@ def student_line(d):
 SKIPPED = {}     # oracle clauses not applied, per reason (reported in the evidence)
 
 
-def oracle_c04(op, o):
+def where_tag(op, level):
+    """What the signature says about HOW the op was executed (dimensions orthogonal to the termination)."""
+    tag = {}
+    if op.get("threaded"):
+        tag["threaded"] = op["threaded"]
+    if level:
+        tag["execution"] = "nested-in-another"
+    elif has_inner(op):
+        tag["execution"] = "with-nested-executions"
+    return tag
+
+
+def how_text(op, level):
+    bits = []
+    if op.get("threaded"):
+        bits.append({"sandbox": "sandbox.threaded = True", "param": "threaded=True passed",
+                     "import": "only the imports threaded"}[op["threaded"]])
+    if level:
+        bits.append("started while another execution on the same sandbox was in progress (depth %d)" % (level + 1))
+    elif has_inner(op):
+        bits.append("its code started %d nested execution(s) on the same sandbox through %s" % (
+            len(op["inner"]), {"mock": "a mocked builtin", "data": "an instructor function in its namespace",
+                               "input": "the input callable"}.get(op.get("via"), "a hook")))
+    return (" [" + "; ".join(bits) + "]") if bits else ""
+
+
+def oracle_c04(op, o, level=0):
     """None, or (signature, what).  Only ops inside C04's quantifier are judged."""
+    v = _oracle_c04(op, o)
+    if v is None:
+        return None
+    sig, what = v
+    sig.update(where_tag(op, level))
+    return sig, what + how_text(op, level)
+
+
+def _oracle_c04(op, o):
     if op.get("inject") or op.get("inject_store") or op["entry"] == "callmissing":
         return None
     t = op["term"]
+    shape = op["shape"]
     if t[0] == "N":
+        nshape = shape if shape in ("normal-imports-helper",) else "normal-termination"
         if o["outcome"] != "ret":
-            return {"c04": "escaped", "shape": "normal-termination"}, "a program that ends normally made %s raise %s" % (
+            return {"c04": "escaped", "shape": nshape}, "a program that ends normally made %s raise %s" % (
                 op["entry"], o.get("escaped"))
-        if o["exc"] is not None or o["fb"]:
-            return {"c04": "phantom-report", "shape": "normal-termination"}, \
-                "a program that ends normally left exception=%s and %d runtime feedback" % (o["exc"], len(o["fb"]))
+        inner_failed = any(io.get("exc") is not None or io.get("fb") for io in o.get("inner", ()))
+        if inner_failed:
+            # the sandbox has ONE exception slot: a failure of an execution nested in this one stays in it
+            SKIPPED["exception slot after a normal end: a nested execution failed"] = SKIPPED.get(
+                "exception slot after a normal end: a nested execution failed", 0) + 1
+        if (o["exc"] is not None and not inner_failed) or o["fb"]:
+            return {"c04": "phantom-report", "shape": nshape}, \
+                "a program that ends normally left exception=%s and %d runtime feedback%s" % (
+                    o["exc"], len(o["fb"]), "" if not o["fb"] else " (%s at line %s)" % (o["fb"][0][1], o["fb"][0][2]))
         return None
     d = t[1]
     if not (d["isException"] or d["isSystemExit"]):
         return None
-    shape = op["shape"]
     if o["outcome"] != "ret":
         return {"c04": "escaped", "shape": shape}, "%s of a program raising %s did not return: %s escaped" % (
             op["entry"], d["cls"], o.get("escaped"))
@@ -1051,7 +1272,7 @@ def oracle_c04(op, o):
     return None
 
 
-def oracle_c05(op, o):
+def oracle_c05(op, o, level=0):
     leaked = sorted(k for k in ("stdout", "sleep", "mods", "trace", "bi") if not o[k])
     if student_sets_trace_untraced(op) and "trace" in leaked:
         leaked.remove("trace")
@@ -1075,28 +1296,33 @@ def oracle_c05(op, o):
             sig["injected"] = True
         if op.get("inject_store"):
             sig["injected"] = "storing-the-output"
-    return sig, "after %s() of a program %sending by %s (tracer style %s%s) not restored: %s" % (
+    sig.update(where_tag(op, level))
+    return sig, "after %s() of a program %sending by %s (tracer style %s%s) not %s: %s%s" % (
         op["entry"].replace("callmissing", "call"), "importing another student file and " if op.get("nested") else "",
         how if t[0] == "N" else t[1]["cls"], op["style"],
         ", recording failure injected" if op.get("inject") else
         (", failure injected into %s while the captured output is stored" % op["inject_store"]
-         if op.get("inject_store") else ""), ", ".join(leaked))
+         if op.get("inject_store") else ""),
+        "as it was when this nested execution started" if level else "restored", ", ".join(leaked),
+        how_text(op, level))
 
 
 ORACLES = {"C04": oracle_c04, "C05": oracle_c05}
 
 
 def failures_in(prop, ops, obs):
+    """[(index of the top-level op, signature, what)] - executions nested in an op are judged too."""
     out = []
     for i, (op, o) in enumerate(zip(ops, obs)):
-        v = ORACLES[prop](op, o)
-        if v is not None:
-            out.append((i, v[0], v[1]))
+        for op2, o2, level in flatten([op], [o]):
+            v = ORACLES[prop](op2, o2, level)
+            if v is not None:
+                out.append((i, v[0], v[1]))
     return out
 
 
 def shrink_history(prop, ops, idx, sig):
-    """Smallest sub-history that still shows `sig` at its last op."""
+    """Smallest sub-history that still shows `sig` at its last op (or in an execution nested in it)."""
     op = ops[idx]
     candidates = []
     if op["entry"] in ("call", "eval") and "expr" not in op or op.get("expr") in ("f()", "f() + 1"):
@@ -1115,7 +1341,6 @@ def shrink_history(prop, ops, idx, sig):
             obs = run_history(cand)
         except Exception:
             continue
-        v = ORACLES[prop](cand[-1], obs[-1])
-        if v is not None and v[0] == sig:
+        if any(i == len(cand) - 1 and s2 == sig for i, s2, _ in failures_in(prop, cand, obs)):
             return cand, obs
     return ops[:idx + 1], None
